@@ -1239,3 +1239,99 @@ func verifHarness_C10_bank_step() {
 		verifReach("close")
 	}
 }
+
+// ---------------------------------------------------------------- C01 record sequences
+
+type verifSeqRec struct {
+	P *int64
+	S string `json:"s,omitempty"`
+	L []int64
+	M map[string]int64
+	B []byte
+	I int64 `json:"i,omitempty"`
+}
+
+func verifSeqEq(a, b *verifSeqRec) bool {
+	ok := verifAnd((a.P == nil) == (b.P == nil), verifStrEq(a.S, b.S))
+	if a.P != nil && b.P != nil {
+		ok = verifAnd(ok, *a.P == *b.P)
+	}
+	ok = verifAnd(ok, len(a.L) == len(b.L) && len(a.M) == len(b.M) && len(a.B) == len(b.B))
+	if len(a.L) == len(b.L) {
+		for i := range a.L {
+			ok = verifAnd(ok, a.L[i] == b.L[i])
+		}
+	}
+	for k, v := range a.M {
+		w, found := b.M[k]
+		ok = verifAnd(ok, found && v == w)
+	}
+	if len(a.B) == len(b.B) {
+		ok = verifAnd(ok, refBytesEq(a.B, b.B))
+	}
+	return verifAnd(ok, a.I == b.I)
+}
+
+// Two records in one block, read by ReadFile into its reused target: the
+// first has every field populated, the second has any mix of nil / empty /
+// zero fields (nulls following non-nulls in the same field). Neither record
+// may inherit anything from the other.
+// one-byte varints: the framing, not the integer width, is the subject here
+func verifSmall(tag string) uint8 { return verifNondetU8(tag) & 0x3f }
+
+func verifHarness_C01_sequence() {
+	verifAllocMax(4096)
+	verifUnwind(400)
+	comp := verifCompression(verifChoice("codec", 3))
+	s, err := SchemaForType(verifSeqRec{})
+	verifAssume(err == nil)
+	c, err := s.Codec(verifSeqRec{})
+	verifAssume(err == nil)
+	sb, err := s.Marshal()
+	verifAssume(err == nil)
+	fw, err := NewFileWriter(sb, comp)
+	verifAssume(err == nil)
+	var recs [2]verifSeqRec
+	r0 := &recs[0]
+	r0.P = new(int64)
+	*r0.P = int64(verifSmall("r0.P")) + 1
+	r0.S = verifString("r0.S", 1)
+	r0.L = []int64{int64(verifSmall("r0.L")), 7}
+	r0.M = map[string]int64{"k": int64(verifSmall("r0.M"))}
+	r0.B = verifBytes("r0.B", 2)
+	r0.I = int64(verifSmall("r0.I")) + 1
+	r1 := &recs[1]
+	if verifChoice("r1.P", 2) == 1 {
+		r1.P = new(int64)
+		*r1.P = int64(verifSmall("r1.Pv"))
+	}
+	r1.S = verifString("r1.S", verifChoice("r1.S.len", 2))
+	if verifChoice("r1.L", 2) == 1 {
+		r1.L = []int64{int64(verifSmall("r1.Lv"))}
+	}
+	if verifChoice("r1.M", 2) == 1 {
+		r1.M = map[string]int64{"q": int64(verifSmall("r1.Mv"))}
+	}
+	r1.B = verifBytes("r1.B", verifChoice("r1.B.len", 2))
+	if verifChoice("r1.I", 2) == 1 {
+		r1.I = int64(verifSmall("r1.Iv"))
+	}
+	order := verifChoice("order", 2) // populated first, or sparse first
+	w := NewWriteBuf(nil)
+	c.Write(w, unsafe.Pointer(&recs[order]))
+	c.Write(w, unsafe.Pointer(&recs[1-order]))
+	rec := &verifRecorder{failAt: -1}
+	verifAssume(fw.WriteBlock(rec, 2, w.Bytes()) == nil)
+	data := append(fw.AppendHeader(nil), rec.all()...)
+	var got []verifSeqRec
+	err = ReadFile(&verifReader{buf: data}, verifSeqRec{}, func(val unsafe.Pointer, rb *ResourceBank) error {
+		got = append(got, *(*verifSeqRec)(val))
+		return nil
+	})
+	verifAssert(err == nil && len(got) == 2, "C01:two-records-read-back")
+	if err == nil && len(got) == 2 {
+		verifAssert(verifSeqEq(&recs[order], &got[0]), "C01:first-record-equal-to-the-value-written")
+		verifAssert(verifSeqEq(&recs[1-order], &got[1]), "C01:second-record-inherits-nothing-from-the-first")
+	}
+	verifReach("end")
+}
